@@ -84,6 +84,28 @@ def build_harness(name="vh", tags="verif", race=False):
     return out
 
 
+
+def build_lru_driver():
+    """Build the LRU driver against /repo's working tree. The cache lives in an internal package, so the driver (a main package)
+    and a read-only state projection are overlaid into the module's tree with `go build -overlay`: /repo itself is not touched."""
+    outdir = os.path.join(WORK, "bin")
+    os.makedirs(outdir, exist_ok=True)
+    src = os.path.join(HARNESS, "lruovl")
+    mod = os.path.join(REPO, "util", "resolve")
+    ovl = os.path.join(outdir, "lru-overlay.%d.json" % os.getpid())
+    with open(ovl, "w") as f:
+        json.dump({"Replace": {os.path.join(mod, "pypi", "verifdrv", "main.go"): os.path.join(src, "main.go.txt"),
+                               os.path.join(mod, "pypi", "internal", "lru", "zz_verif_export.go"): os.path.join(src, "export.go.txt")}}, f)
+    out = os.path.join(outdir, "lrudrv")
+    tmp = "%s.%d.tmp" % (out, os.getpid())
+    p = sh(["go", "build", "-overlay", ovl, "-o", tmp, "deps.dev/util/resolve/pypi/verifdrv"], cwd=mod, timeout=900, check=False)
+    os.unlink(ovl)
+    if p.returncode != 0:
+        raise Trouble("LRU driver build failed against %s:\n%s" % (REPO, p.stdout[-6000:]))
+    os.replace(tmp, out)
+    return out
+
+
 def run_harness(binpath, args, cwd=None, env=None, timeout=1800, stdin=None):
     p = subprocess.run([binpath] + list(args), cwd=cwd, env=env_with(env), timeout=timeout,
                        stdout=subprocess.PIPE, stderr=subprocess.PIPE, text=True, input=stdin)
